@@ -423,3 +423,90 @@ func c18Live(p Params) func() {
 		vsched.Logf("%s", hist)
 	}
 }
+
+func init() { Sched["c18_redial"] = c18Redial }
+
+// c18Redial: the connection limit on a dialing peer whose sessions redial. History over {dial a further session,
+// the server cuts the connection of session i (auto-redial, server reachable), close session i}; limit N in {1,2}.
+// A session that reconnects keeps the one slot it holds: it survives every loss (the server is reachable and the
+// budget is per outage), never takes a second slot and never gives its slot away while it lives. At every quiescent
+// point: live admitted sessions <= N, a dial is admitted iff live < N, every admitted session that was not closed is
+// healthy and answers a call.
+func c18Redial(p Params) func() {
+	depth := p.Int("depth", 4)
+	return func() {
+		begin()
+		n := 1 + vsched.Choose(2, "limit")
+		const addr = "10.0.0.1:9000"
+		lis := vnet.Listen(addr)
+		srv := world.NewPeer("json")
+		h := srv.RouteCallFunc(func(ctx erpc.CallCtx, a *string) (*string, *erpc.Status) {
+			r := "r:" + *a
+			return &r, nil
+		})
+		vsched.Spawn("acceptloop", func() { erpc.VerifServeListener(srv, lis) })
+		ol := overloader.New(overloader.LimitConfig{MaxConn: int32(n)})
+		cli := erpc.NewPeer(erpc.PeerConfig{DefaultBodyCodec: "json", RedialTimes: 2, RedialInterval: time.Millisecond}, ol)
+		var live []erpc.Session
+		hist := fmt.Sprintf("limit=%d:", n)
+		check := func() {
+			vsched.Quiesce()
+			if len(live) > n {
+				vsched.Failf("%d sessions admitted at once with a connection limit of %d | %s", len(live), n, hist)
+			}
+			for i, s := range live {
+				if !s.Health() {
+					vsched.Failf("admitted session %d did not survive (unhealthy although the server is reachable and it holds a slot) | %s", i, hist)
+				}
+				var r string
+				if st := s.Call(h, "x", &r).Status(); !st.OK() || r != "r:x" {
+					vsched.Failf("call on admitted session %d failed: %s | %s", i, world.StatStr(st), hist)
+				}
+			}
+			if c := cli.CountSession(); c != len(live) {
+				vsched.Failf("the dialing peer lists %d sessions, %d are live (%v) | %s", c, len(live), sessionsOf(cli), hist)
+			}
+		}
+		for i := 0; i < depth; i++ {
+			switch k := vsched.Choose(3, "op"); k {
+			case 0:
+				hist += " dial"
+				s, st := cli.Dial(addr)
+				vsched.Quiesce()
+				if len(live) < n {
+					if !st.OK() {
+						vsched.Failf("dial rejected (%s) although only %d of %d slots are taken | %s", world.StatStr(st), len(live), n, hist)
+					}
+					live = append(live, s)
+				} else if st.OK() {
+					vsched.Failf("dial admitted although all %d slots are taken by live sessions | %s", n, hist)
+				}
+			case 1:
+				if len(live) == 0 {
+					hist += " -"
+					continue
+				}
+				j := vsched.Choose(len(live), "which")
+				hist += fmt.Sprintf(" cut%d", j)
+				// the server side of that session's current connection is cut
+				want := live[j].LocalAddr().String()
+				for _, x := range vnet.Conns() {
+					if x.LocalAddr().String() == addr && x.RemoteAddr().String() == want && !x.IsClosed() && !x.Broken() {
+						x.Break()
+					}
+				}
+			case 2:
+				if len(live) == 0 {
+					hist += " -"
+					continue
+				}
+				j := vsched.Choose(len(live), "which")
+				hist += fmt.Sprintf(" close%d", j)
+				live[j].Close()
+				live = append(live[:j], live[j+1:]...)
+			}
+			check()
+		}
+		vsched.Logf("%s", hist)
+	}
+}
